@@ -20,6 +20,13 @@ def run(tier, seed):
     scripts = sc.generate(rep, "Gen_FimStore profile=graphs",
                           sc.consts(["g1", "g2", "g3"], ["a", "b"], depth=4 if quick else 5, profile="graphs"))
     sc.run_and_validate(rep, scripts, VARIANTS if quick else VARIANTS_FMT, "tlc-generated multi-graph behaviours")
+    for seed_name in ("pair", "tri"):
+        d = (3 if seed_name == "pair" else 2) if quick else 4
+        sc.model_check(rep, "MC_FimStore profile=graphs seed=" + seed_name,
+                       sc.consts(["g1", "g2", "g3"], ["a", "b"], depth=d, queries=False, profile="graphs", seed=seed_name))
+        scripts = sc.generate(rep, "Gen_FimStore profile=graphs seed=" + seed_name,
+                              sc.consts(["g1", "g2", "g3"], ["a", "b"], depth=d + 1, profile="graphs", seed=seed_name))
+        sc.run_and_validate(rep, scripts, VARIANTS if quick else VARIANTS_FMT, "tlc-generated from seeded store " + seed_name)
     # code -> spec: long random interleavings over 4 graph ids, import/clone/delete heavy
     rng = random.Random(seed)
     w = {"Import": 8, "Export": 6, "Clone": 6, "DeleteGraph": 3, "DeleteAll": 0.3, "AddNode": 14, "AddLink": 8,
